@@ -97,6 +97,14 @@ func replayOne(sc script, deadline time.Duration, attempt int) replayResult {
 		DeadlineS: deadline.Seconds(), StuckAt: -1}
 	f := s.f
 	stuck := false
+	nfail := 0
+	// the model's failures have no kind the client reacts to: every signalled failure of the script gets
+	// one of the kinds, rotating with the script's number so that all kinds occur
+	nextKind := func() string {
+		k := failureKinds[(sc.ID+nfail)%len(failureKinds)]
+		nfail++
+		return k
+	}
 	for i, st := range sc.Steps {
 		switch st.A {
 		case "call":
@@ -117,13 +125,17 @@ func replayOne(sc script, deadline time.Duration, attempt int) replayResult {
 				s.markDiverged(i, "no stream creation pending")
 			} else {
 				f.mu.Lock()
-				f.answerNSLocked(st.A == "nsOK")
+				if st.A == "nsOK" {
+					f.answerNSLocked(true)
+				} else {
+					f.answerNSKindLocked(false, nextKind())
+				}
 				f.mu.Unlock()
 				s.waitFor(func() bool { return f.pendSend != nil }, settleWindow/4)
 			}
 		case "fail":
 			f.mu.Lock()
-			ok := f.failStreamLocked()
+			ok := f.failStreamKindLocked(nextKind())
 			f.mu.Unlock()
 			if !ok {
 				s.markDiverged(i, "no established stream to break")
